@@ -797,7 +797,7 @@ class Interp:
             if isinstance(it.length, int):
                 return [it.get(i) for i in range(it.length)]
             return None
-        if isinstance(it, models.SymRange):
+        if isinstance(it, (models.SymRange, models.SymEnumerate)):
             return None
         if isinstance(it, SymStr):
             t = z3.simplify(it.term)
@@ -854,6 +854,10 @@ class Interp:
         is_for = isinstance(s, ast.For)
         n = None
         if is_for:
+            enum_start = None
+            if isinstance(it, models.SymEnumerate):
+                enum_start = it.start
+                it = it.it
             if isinstance(it, SymList):
                 n = it.length
                 getter = it.get
@@ -865,6 +869,9 @@ class Interp:
                 getter = lambda k: SymStr(z3.SubString(it.term, _i(k), 1))
             else:
                 raise Unsupported('invariant loop over this iterable kind')
+            if enum_start is not None:
+                base_getter = getter
+                getter = lambda k: (enum_start + k, base_getter(k))
         # 1. establish
         L0 = LoopState(frame, 0, it, p, self)
         for name, cond in spec.inv(L0):
